@@ -470,7 +470,7 @@ def run(ctx):
     ok = ctx.build(['MPyC.FinField']) and ctx.check_props()
     rng = ctx.rng
     ctx.rule = ('model tie: case = (prime p, operator method, left element, right operand (element | int | foreign)); '
-                'all pairs for p <= 31 (x all ints in [-p-1, p+1] and around +-2p, all exponents in [-p-2, p+2], shift counts -2..11 and around 32, 64), '
+                'all pairs for p <= 31 (x all ints in [-2p-1, 2p+1] for p <= 13, boundary ints around 0, +-p, +-2p above, all exponents in [-p-2, p+2], shift counts -2..11 and around 32, 64), '
                 'random+boundary for larger primes; oracle: case = (field, a, b) / (field, a, kind) on every field kind')
     ctx.explanation = ('Coq theorems about the executable prime-field model; the model is compared with the real operator '
                        'methods exactly; the property is also checked on the implementation against independent '
@@ -511,8 +511,8 @@ def run(ctx):
         if p <= 13 or ctx.tier == 'thorough':
             ints = list(range(-2 * p - 1, 2 * p + 2)) + [2 ** 64, -2 ** 64 - 1, p * p + 1]
         else:
-            ints = list(range(-p - 1, p + 2)) + [-2 * p - 1, -2 * p, -2 * p + 1, 2 * p - 1, 2 * p, 2 * p + 1,
-                                                   2 ** 64, -2 ** 64 - 1, p * p + 1]
+            ints = [-2 * p - 1, -2 * p, -2 * p + 1, -p - 1, -p, -p + 1, -2, -1, 0, 1, 2, 3, (p + 1) // 2, p - 1, p, p + 1,
+                    2 * p - 1, 2 * p, 2 * p + 1, 2 ** 64, -2 ** 64 - 1, p * p + 1]
         for op in EL_OPS:
             cases = [(a, ('el', b)) for a in els for b in els]
             add_cases(p, F, op, cases, 'List.concat (table_el %s %s)' % (zlit(p), op))
@@ -570,7 +570,7 @@ def run(ctx):
 
     ctx.log('%d operator runs on the implementation; evaluating %d model tables in Coq' % (sum(len(m[2]) for m in meta), len(exprs)))
     if ok:
-        res = ctx.coq_eval(['MPyC.FinField'], exprs, chunk=60)
+        res = ctx.coq_eval(['MPyC.FinField'], exprs, chunk=40)
         mism = 0
         for r, (p, op, cases, impl) in zip(res, meta):
             if isinstance(r, tuple) and r and r[0] == 'ERROR':
